@@ -12,8 +12,9 @@ type Scenario struct {
 	Name     string
 	Kind     string // what the scenario exercises (also the prefix of oracle keys)
 	Prog     *Prog
-	NoOracle bool // behaviour outside the property's reading: compared with the model only
-	Probe    bool // accept/reject probe: case line `minic`, oracle keys prefixed with Note
+	NoOracle bool   // behaviour outside the property's reading: compared with the model only
+	XGoExtra string // XGo-only declarations (overload sets): no counterpart in the model, calls are resolved
+	Probe    bool   // accept/reject probe: case line `minic`, oracle keys prefixed with Note
 	Note     string
 }
 
@@ -555,10 +556,118 @@ func (g *G) scCmd() *Scenario {
 	return g.finish("cmd_call", body)
 }
 
+// scOverload: sugar as an argument of an OVERLOADED function whose earlier candidates reject the
+// LAST argument (a slice literal of the wrong element type): compileCallExpr resets the operand
+// stack and compiles ALL arguments again for the next candidate, so every sugar node among the
+// arguments is compiled 2 or 3 times.  The model has no overload sets: the s-expression and the
+// documented expansion call the candidate Go's rules select; only the XGo source uses the
+// overloaded name.  (A compiler that changes its input while compiling shows up here only.)
+func (g *G) scOverload() *Scenario {
+	var body []*Stmt
+	g.declList(&body)
+	g.declList(&body)
+	g.declInt(&body)
+	nargs := 1 + g.r.Intn(2)
+	var args []*Expr
+	var params []Param
+	kind := "overload_arg"
+	for i := 0; i < nargs; i++ {
+		var e *Expr
+		var t *Ty
+		switch g.r.Intn(6) {
+		case 0:
+			e = SliceLit(TInt, g.maybeProbe(g.intE(1), 50), g.intE(1))
+			t = TList(TInt)
+		case 1:
+			f1, t1 := g.callee(1)
+			body = append(body, Def1(g.v("m"), Int(2)))
+			g.ints = append(g.ints, fmt.Sprintf("m%d", g.nv))
+			g.local(fmt.Sprintf("m%d", g.nv), TInt)
+			e = ErrDflt(f1, t1[0], Probe(g.id(), Int(40)), Var(fmt.Sprintf("m%d", g.nv)))
+			t = TInt
+		default: // comprehension with >= 2 phrases most of the time
+			save := g.ints
+			n := 2 + g.r.Intn(2)
+			if g.r.Chance(15) {
+				n = 1
+			}
+			switch g.r.Intn(4) {
+			case 0:
+				ps, bound := g.phrases(n, 0, false)
+				e, t = MapCompr(TInt, TInt, Bin("rem", g.useAll(bound), Int(3)), g.useAll(bound), ps...), TMap(TInt, TInt)
+			case 1:
+				ps, bound := g.phrases(n, 0, false)
+				e, t = SelCompr(TInt, false, g.useAll(bound), ps...), TInt
+			case 2:
+				ps, bound := g.phrases(n, 0, true)
+				c := ps[0].C
+				for _, x := range bound {
+					c = Bin("land", c, Bin("ge", Bin("mul", Var(x), Var(x)), Int(0)))
+				}
+				ps[0].C = c
+				e, t = ExistsCompr(ps...), TBool
+			default:
+				ps, bound := g.phrases(n, 0, false)
+				e, t = ListCompr(TInt, g.useAll(bound), ps...), TList(TInt)
+			}
+			g.ints = save
+		}
+		args = append(args, e)
+		params = append(params, Param{fmt.Sprintf("p%d", i), t})
+	}
+	// the deciding last argument: `[k1, k2]` fits only the candidate whose last parameter is []int
+	args = append(args, SliceLit(TInt, Int(g.r.Intn(5)), Int(g.r.Intn(5))))
+	lastTys := []*Ty{TList(TStr), TList(TBool), TList(TInt)}
+	ncand := 2 + g.r.Intn(2)
+	order := []int{0, 2} // candidate i has last parameter lastTys[order[i]]
+	if ncand == 3 {
+		order = [][]int{{0, 1, 2}, {0, 2, 1}, {1, 0, 2}}[g.r.Intn(3)]
+	} else if g.r.Chance(15) {
+		order = []int{2, 0} // first candidate fits: compiled once
+	}
+	ov := "ov" + g.sfx
+	extra := "func " + ov + " = (\n"
+	resolved := ""
+	for ci, k := range order {
+		name := fmt.Sprintf("ov%d%s", ci, g.sfx)
+		ps := append(append([]Param{}, params...), Param{"w", lastTys[k]})
+		var fb []*Stmt
+		for _, p := range ps {
+			fb = append(fb, ExprS(Probe(g.id(), Var(p.Name))))
+		}
+		fb = append(fb, Ret(Int(ci+1)))
+		g.funcs = append(g.funcs, &Func{Name: name, Params: ps, Results: []Param{{"", TInt}}, Body: fb})
+		extra += "\t" + name + "\n"
+		if k == 2 {
+			resolved = name
+		}
+	}
+	extra += ")\n\n"
+	call := Call(resolved, args...)
+	call.XS = ov
+	switch g.r.Intn(3) {
+	case 0:
+		r := g.v("r")
+		body = append(body, Def1(r, call))
+		g.local(r, TInt)
+	case 1:
+		body = append(body, ExprS(Probe(g.id(), call)))
+	default:
+		call.K = "cmdCall"
+		body = append(body, ExprS(call))
+	}
+	sc := g.finish(kind, body)
+	sc.XGoExtra = extra
+	sc.Note = fmt.Sprintf("cands%d", ncand)
+	return sc
+}
+
 // C02Scenario generates the i-th scenario of the C02 mix.
 func C02Scenario(r *vh.Rand, i int) *Scenario {
 	g := newG(r, fmt.Sprintf("_%d", i))
 	switch k := i % 10; {
+	case k == 9 || k == 7:
+		return g.scOverload()
 	case k == 0:
 		return g.scLiterals()
 	case k == 1:
